@@ -297,6 +297,9 @@ func (s *Sim) yield(op Op) wakeMsg {
 	if t == nil {
 		panic("sim: seam call from a goroutine that is not a task (" + op.Method + ")")
 	}
+	if t.dead {
+		panic(simAbort{}) // a task of a crashed server that was blocked inside the library when the crash came
+	}
 	if op.Kind == opCall || op.Kind == opLock {
 		t.calls[op.Method]++
 		t.ord++
@@ -350,8 +353,11 @@ func (s *Sim) crash(host string) {
 	}
 	for _, t := range s.tasks {
 		if t.dead && !t.done && !t.running && t.pending != nil {
+			// a goroutine of the library that has not run yet is started and dies at its first seam call, so that
+			// its deferred functions (wg.Done) run; everything else unwinds from where it is parked
+			atStart := t.pending.Kind == opStart && t.Origin == "lib"
 			t.pending = nil
-			t.wake <- wakeMsg{poison: true}
+			t.wake <- wakeMsg{poison: !atStart}
 			synctest.Wait()
 		}
 	}
